@@ -820,7 +820,7 @@ func (c *c14) checkWalks(days []string) {
 			case 2:
 				steps = int(c.rnd()%801) - 400
 			default:
-				steps = []int{0, 1, -1, 5, -5, 7, -7, 22, -22, 250, -250}[c.rnd()%11]
+				steps = []int{0, 1, -1, 5, -5, 7, -7, 22, -22, 250, -250, 262, -262, 523, 1000, -1000, 1500}[c.rnd()%17]
 			}
 		}
 		// reference walk
